@@ -111,7 +111,14 @@ def _replay(chunk):
                     except Violation as v:
                         step_viol = (v.what, v.detail)
         except Exception as e:  # noqa
-            bad.append((seed, trace, 'replay raised %r' % (e,)))
+            from .run import library_exception_report
+            if library_exception_report(e, None) is not None:
+                # valid calls only: an exception from inside the library is a finding
+                viol.append((seed, trace, 'unexpected %s: %s (while the trace was replayed '
+                             'from the constructor)' % (type(e).__name__, str(e)[:120]), {}))
+                n += 1
+            else:
+                bad.append((seed, trace, 'replay raised %r' % (e,)))
             continue
         if step_viol is not None:
             viol.append((seed, trace, step_viol[0], step_viol[1]))
@@ -154,6 +161,10 @@ def bfs(mach, depth, rep=None, validate='deepest', deadline=None, max_states=Non
     for label in mach.seed_labels():
         try:
             st = mach.seed(label)
+        except Violation as v:
+            rep.violation('seed:' + v.what, v.what + ' (while the starting state was built)',
+                          dict(machine=mach.name, seed=label, trace=[]), **v.detail)
+            continue
         except Exception as e:  # noqa
             # the seed is built by valid calls only: an exception from inside the library
             # while building it is a finding, not a harness bug
@@ -284,6 +295,8 @@ class Machine:
         """Re-run a recorded trace with all checks. Returns violation text or None."""
         try:
             st = self.seed(case['seed'])
+        except Violation as v:
+            return v.what
         except Exception as e:  # noqa
             from .run import library_exception_report
             if library_exception_report(e, None) is None:
